@@ -228,6 +228,13 @@ func fullObservation(f *excelize.File, sheet string, w, h int) string {
 	for _, m := range mcs {
 		fmt.Fprintf(&sb, "|M%s=%q", m.GetStartAxis()+":"+m.GetEndAxis(), m.GetCellValue())
 	}
+	// the bulk readers, exactly as they answer (lengths of rows and columns included)
+	if rows, err := f.GetRows(sheet); err == nil {
+		fmt.Fprintf(&sb, "|rows%q", rows)
+	}
+	if cols, err := f.GetCols(sheet); err == nil {
+		fmt.Fprintf(&sb, "|cols%q", cols)
+	}
 	for r := 1; r <= h; r++ {
 		ht, _ := f.GetRowHeight(sheet, r)
 		vis, _ := f.GetRowVisible(sheet, r)
